@@ -11,7 +11,7 @@ TECHNIQUE = "runtime monitoring: ThreadSanitizer build of the real FsDropInServi
 RULE = ("one process per run under ThreadSanitizer: the real FsDropInService watcher thread, a thread running updateDropIns -> prerun -> runOnce "
         "back to back on an engine of scripted plugins, and a thread performing a seeded sequence of 80 (quick) / 150 (thorough) file operations in "
         "the drop-in directory: create, rewrite in one shot and in chunks (partial JSON on disk in between), rename in / out / within, delete, "
-        "dot-files, syntactically invalid JSON, JSON that parses but is refused (unknown target ruleset, part the base did not open, bad "
+        "dot-files, rewrites that bring back byte-identical earlier content (also right after an unusable version), syntactically invalid JSON, JSON that parses but is refused (unknown target ruleset, part the base did not open, bad "
         "numeric field), removing and re-creating the directory. Every valid content carries a unique id as a plugin argument, so a tick's "
         "call log shows exactly which contents are active. Oracles: zero ThreadSanitizer reports, process alive, no abort; after the file "
         "thread stopped the driver waits until the watcher thread is blocked in epoll_wait with no pending inotify bytes while >=2 more "
@@ -61,9 +61,14 @@ def gen(rng, cid, nops):
     state = {}  # file -> (kind, content id)
     ver = [0]
 
+    hist = {}  # file -> every (kind, content id) it ever held: a later rewrite may bring back the very same bytes
+
     def new(kind, f):
+        if hist.get(f) and rng.random() < 0.2:
+            return rng.choice(hist[f])
         ver[0] += 1
-        return kind, "%s#%d" % (f, ver[0])
+        hist.setdefault(f, []).append((kind, "%s#%d" % (f, ver[0])))
+        return hist[f][-1]
 
     initial = {}
     for f in rng.sample(FILES, rng.randint(0, 3)):
@@ -104,6 +109,15 @@ def gen(rng, cid, nops):
                 ops.append({"op": "rmdir_mkdir", "gap_us": rng.choice([0, 0, 0, 300, 2000, 20000])})
             state.clear()
             recreated += 1
+        elif r < 0.79:
+            # a file goes valid -> unusable -> back to exactly the bytes it had before, each state seen by the watcher
+            k, c = new(rng.choice(VALID), f)
+            bk, bc = rng.choice(["badjson", "garbage", "empty", "bad_value", "unknown_target"]), "x"
+            for kk, cc in ((k, c), (bk, bc), (k, c)):
+                ops.append({"op": rng.choice(["write", "write", "write_chunks", "rename_in"]), "file": f, "text": content(kk, cc), "chunks": 3})
+                ops.append({"op": "wait_ticks", "n": rng.randint(1, 3)})
+            state[f] = (k, c)
+            invalid += 1
         elif r < 0.9:
             ops.append({"op": "wait_ticks", "n": rng.randint(1, 4)})
     # make sure something valid is there at the end
